@@ -617,7 +617,8 @@ Proof.
   split; [intros [|] [|]; reflexivity|reflexivity].
 Qed.
 
-(* D (known finding, not repaired): a client that was given a PSK only is established by a DTLS 1.3
+(* D = F57 (repaired in /repo by 85b75b7: a PSK-only configuration does not offer DTLS 1.3).  Regression
+   witness for the code before it: a client that was given a PSK only is established by a DTLS 1.3
    server on its certificate alone (system roots, no name) - the PSK plays no part *)
 Definition pskonly_cfg13 : cfg13 := mk_cfg13 false NoClientCert false false false true (* PSK-only client *).
 Definition pskonly_pview : pview :=
@@ -628,7 +629,7 @@ Theorem client13_psk_only_refuted :
   exists k v, p_from_client v = false /\ k_psk_only k = true /\ sig_sound_p v /\
     (forall ipname bind req, flight13_top false ipname bind req k v = Accept) /\
     flight13_credential k v = false /\
-    (forall ipname bind req, flight13_top true ipname bind req k v = Reject a_handshake_failure).
+    (forall ipname bind req, flight13_top true ipname bind req k v = Reject a_config_refused).
 Proof.
   exists pskonly_cfg13, pskonly_pview.
   split; [reflexivity|]. split; [reflexivity|]. split; [intros _ _; reflexivity|].
